@@ -99,6 +99,19 @@ def decisions_under(tmp, regs, file_map, names, dir_files=None):
     return fsharness.decisions(e, names, CREDS), e, conf
 
 
+_DEFER = []
+
+
+def _flush(rep):
+    if not _DEFER:
+        return
+    for (rq, suite, case, real), ans in zip(_DEFER, driver.call([d[0] for d in _DEFER])):
+        model = sorted(ans['names']) if 'names' in ans else {k: v for k, v in ans['out']}
+        if model != real:
+            rep.disagree(suite, case, model, real)
+    del _DEFER[:]
+
+
 def run(ctx, rep):
     tmp = fsharness.scratch('opverif-c18-')
     saved = (generator.get_policies_dict, generator._get_enforcer)
@@ -106,7 +119,9 @@ def run(ctx, rep):
         _upgrade(ctx, rep, tmp)
         _convert(ctx, rep, tmp)
         _generate_and_redundant(ctx, rep, tmp)
+        _flush(rep)
     finally:
+        del _DEFER[:]
         generator.get_policies_dict, generator._get_enforcer = saved
         shutil.rmtree(tmp, ignore_errors=True)
 
@@ -196,9 +211,8 @@ def _convert(ctx, rep, tmp):
             rep.fail(key, 'oslopolicy-convert-json-to-yaml output for %r is not a loadable policy file: %s: %s'
                      % (fm, type(e).__name__, str(e)[:200]), {'file': fm, 'regs': regs})
             continue
-        m = driver.call([{'op': 'tool_convert', 'file': [[k, driver.enc(v)] for k, v in fm.items()], 'regs': _mregs(regs)}])[0]['out']
-        if {k: v for k, v in m} != {k: str(v) for k, v in res.items()}:
-            rep.disagree('tool-convert', {'file': fm, 'regs': regs}, {k: v for k, v in m}, {k: str(v) for k, v in res.items()})
+        _DEFER.append(({'op': 'tool_convert', 'file': [[k, driver.enc(v)] for k, v in fm.items()], 'regs': _mregs(regs)},
+                       'tool-convert', {'file': fm, 'regs': regs}, {k: str(v) for k, v in res.items()}))
         after, _, _ = decisions_under(tmp, regs, res, names)
         if after != before:
             i = [k for k in range(len(after)) if after[k] != before[k]][0]
@@ -251,10 +265,8 @@ def _generate_and_redundant(ctx, rep, tmp):
         merged = dict(main)
         merged.update(dfile)
         if res is not None:
-            m = driver.call([{'op': 'tool_generate', 'file': [[k, driver.enc(v)] for k, v in merged.items()], 'regs': _mregs(regs)}])[0]['out']
-            if {k: v for k, v in m} != {k: str(v) for k, v in res.items()}:
-                rep.disagree('tool-generate', {'main': main, 'dir': dfile, 'regs': regs}, {k: v for k, v in m},
-                             {k: str(v) for k, v in res.items()})
+            _DEFER.append(({'op': 'tool_generate', 'file': [[k, driver.enc(v)] for k, v in merged.items()], 'regs': _mregs(regs)},
+                           'tool-generate', {'main': main, 'dir': dfile, 'regs': regs}, {k: str(v) for k, v in res.items()}))
             after, _, _ = decisions_under(tmp, regs, res, all_names)
             if after != before:
                 i = [k for k in range(len(after)) if after[k] != before[k]][0]
@@ -273,9 +285,8 @@ def _generate_and_redundant(ctx, rep, tmp):
         for ln in buf.getvalue().splitlines():
             if ln.startswith('"'):
                 reported.append(ln.split('"')[1])
-        mr = driver.call([{'op': 'tool_redundant', 'file': [[k, driver.enc(v)] for k, v in merged.items()], 'regs': _mregs(regs)}])[0]['names']
-        if sorted(mr) != sorted(reported):
-            rep.disagree('tool-redundant', {'main': main, 'dir': dfile, 'regs': regs}, sorted(mr), sorted(reported))
+        _DEFER.append(({'op': 'tool_redundant', 'file': [[k, driver.enc(v)] for k, v in merged.items()], 'regs': _mregs(regs)},
+                       'tool-redundant', {'main': main, 'dir': dfile, 'regs': regs}, sorted(reported)))
         for n in reported:
             m2 = {k: v for k, v in main.items() if k != n}
             d2 = {k: v for k, v in dfile.items() if k != n}
